@@ -23,6 +23,9 @@ abbrev Bytes := List UInt8
 /-- `2^64` -/
 abbrev U64 : Nat := 18446744073709551616
 
+/-- the bytes of an ASCII string literal (reduces in the kernel, unlike `String.toUTF8`) -/
+def ascii (s : String) : Bytes := s.toList.map fun c => UInt8.ofNat c.toNat
+
 /-- `isspace` in the "C" locale -/
 def isSpace (c : UInt8) : Bool := c.toNat = 32 || (9 ≤ c.toNat && c.toNat ≤ 13)
 
